@@ -153,6 +153,8 @@ def dispatch (st : State) (line : String) : State × String :=
     if op == "retrieve" then (st, OpsMore.retrieveOp ts) else
     if op == "gluetable" then (st, OpsMore.gluetableOp ts) else
     if op == "treescore" then (st, OpsLazy.treeScoreOp ts) else
+    if op == "numfmt" then (st, OpsLazy.numFmtOp ts) else
+    if op == "numfmt_fe" then (st, OpsLazy.numFmtFeOp ts) else
     if op == "cli" then
       (st, OpsLazy.cliOp (fun n => if n == "-" then some none else (lookupNamed st.seen n).map some)
         (fun n => lookupNamed st.unary n) ts) else
